@@ -10,7 +10,7 @@ from ..kernelcases import DTYPES, MIN_INT, encode_values, mask_token
 
 PID = "C09"
 MODULES = ["GroupbyVerif.Props.C09", "GroupbyVerif.LoopBridge.Rolling", "GroupbyVerif.LoopBridge.RollingMax", "GroupbyVerif.LoopBridge.IsNull"]
-RULE = ("seeded random interleavings of <= 3 groups with null codes/keys x window 1..5 (plus windows 17 / 130 / 200 over 3-14 windows of rows) x min_periods 1..window (and the boundary value 0) x null placements x boolean masks x "
+RULE = ("seeded random interleavings of <= 3 groups with null codes/keys x window 1..5 (plus windows 17 / 130 / 200 over 3-14 windows of rows) x min_periods 1..window (and the boundary value 0; in 15 % of the cases left at its default with windows 2..9, beyond the largest group) x null placements x boolean masks x "
         "value dtype classes f64 f32 i32 i64(small) M8[ns] with sub-microsecond digits m8[s] x {rolling sum, mean, min, max, shift, diff} at the kernel "
         "level (numba.rolling_*) and through GroupBy.rolling_*/shift/diff with both index_by_groups settings; boundary windows 32767/32768/40000 with a "
         "longer group in both tiers; exhaustive <= 6 rows, <= 2 groups, window <= 3 in the thorough tier; non-trivial = a group with > window selected rows; "
